@@ -44,12 +44,15 @@ THEOREMS = [
     "Opacus.C04.secure_mode_variance",
     "Opacus.C04.hook_noise_on_logical_batch_ends",
     "Opacus.PeekQueue.run_from",
+    # the tie to the source: Generated/ReleaseArith.lean is re-translated from opacus/optimizers/*.py on every run
+    "Opacus.C04.generated_noise_std_eq_model",
 ]
 RULE = (
     "request-log cases = (optimizer class, sigma, C or per-layer Cs, secure?, parameter shapes of a generated model) from VERIF_SEED; non-trivial iff sigma ≠ 0 and ≥ 2 parameters; "
     "history cases = op sequences with skip signals / sigma writes through the protocol machine; non-trivial iff a skipped step and a released step both occur; distinct by the whole tuple"
 )
 TRUSTED = [
+    "the translator vharness/props/release_trans.py (Python `ast` -> real arithmetic for the `std=` argument of the two gradient-noise `_generate_noise` calls, which must also pass `generator=self.generator`; counts the `_generate_noise(reference=<summed_grad>)` sites under opacus/optimizers; anything else is reported as a broken tie) is trusted to render those expressions faithfully; the body of _generate_noise itself is tied by the request-log correspondence (a syntactic rendering would alarm on wrapper helpers)",
     "torch.normal draws i.i.d. N(0, std²) values per call and per coordinate, deterministically in the generator state (PRNG law and independence across calls are not expressible in an executable model)",
     "PrivacyEngine(secure_mode=True) needs torchcsprng (absent in this sandbox): the secure path is exercised at optimizer level (secure_mode=True with a torch.Generator)",
     "DPPerLayerOptimizer computes its joint bound with a float32 torch.norm; compared to 1e-6 relative",
@@ -499,7 +502,14 @@ def adaptive_value_in_force_search(ctx):
             ctx.validated()
 
 
+def regenerate(ctx):
+    from .. import regen
+    from . import release_trans as T
+    regen.regenerate(ctx, T, "Opacus.Generated.Release", "gradient-noise std (optimizers/optimizer.py, ddp_perlayeroptimizer.py)")
+
+
 def run(ctx):
+    regenerate(ctx)
     with rig.default_dtype(torch.float64):
         adaptive_value_in_force_search(ctx)
         request_cases(ctx)
